@@ -769,19 +769,22 @@ struct TwoInst {
 };
 
 // ---------------------------------------------------------------------------------------------
-// min / max / clamp
+// min / max / clamp — called unqualified, as users do (for identical types the hidden friends of Quantity are found by
+// ADL; the qualified spelling au::max(q, q) is ambiguous with std::max and is not used here)
+template <class A, class B> constexpr auto call_max(A a, B b) { using au::max; return max(a, b); }
+template <class A, class B> constexpr auto call_min(A a, B b) { using au::min; return min(a, b); }
+template <class A, class B, class C> constexpr auto call_clamp(A a, B b, C c) { using au::clamp; return clamp(a, b, c); }
 template <class R1, class U1, class R2, class U2>
 struct MinMaxInst {
     using Q1 = au::Quantity<U1, R1>; using Q2 = au::Quantity<U2, R2>;
     using CU = au::CommonUnitT<U1, U2>; using CR = std::common_type_t<R1, R2>;
-    static_assert(std::is_same<decltype(au::max(Q1{}, Q2{})), au::Quantity<CU, CR>>::value, "max unit");
-    static_assert(std::is_same<decltype(au::min(Q1{}, Q2{})), au::Quantity<CU, CR>>::value, "min unit");
+    static_assert(std::is_same<decltype(call_max(Q1{}, Q2{})), au::Quantity<CU, CR>>::value, "max unit");
+    static_assert(std::is_same<decltype(call_min(Q1{}, Q2{})), au::Quantity<CU, CR>>::value, "min unit");
     static void pt(int argc, char** argv, std::string& o) {
         for (int i = 0; i + 1 < argc; i += 2) {
             Q1 q1 = au::make_quantity<U1>(IO<R1>::parse(argv[i])); Q2 q2 = au::make_quantity<U2>(IO<R2>::parse(argv[i + 1]));
             long u0 = g_ub;
-            using au::max; using au::min;
-            putc(o, max(q1, q2).in(CU{})); putc(o, min(q1, q2).in(CU{})); put(o, g_ub - u0); o += " ";
+            putc(o, call_max(q1, q2).in(CU{})); putc(o, call_min(q1, q2).in(CU{})); put(o, g_ub - u0); o += " ";
         }
     }
     static void sweep(int, char**, std::string& o) { RatioInfo<U1, U2>::put_info(o); }
@@ -790,14 +793,13 @@ template <class RV, class UV, class RL, class UL, class RH, class UH>
 struct ClampInst {
     using QV = au::Quantity<UV, RV>; using QL = au::Quantity<UL, RL>; using QH = au::Quantity<UH, RH>;
     using CU = au::CommonUnitT<UV, UL, UH>; using CR = std::common_type_t<RV, RL, RH>;
-    static_assert(std::is_same<decltype(au::clamp(QV{}, QL{}, QH{})), au::Quantity<CU, CR>>::value, "clamp unit");
+    static_assert(std::is_same<decltype(call_clamp(QV{}, QL{}, QH{})), au::Quantity<CU, CR>>::value, "clamp unit");
     static void pt(int argc, char** argv, std::string& o) {
         for (int i = 0; i + 2 < argc; i += 3) {
             QV v = au::make_quantity<UV>(IO<RV>::parse(argv[i])); QL l = au::make_quantity<UL>(IO<RL>::parse(argv[i + 1]));
             QH h = au::make_quantity<UH>(IO<RH>::parse(argv[i + 2]));
             long u0 = g_ub;
-            using au::clamp;
-            putc(o, clamp(v, l, h).in(CU{})); put(o, g_ub - u0); o += " ";
+            putc(o, call_clamp(v, l, h).in(CU{})); put(o, g_ub - u0); o += " ";
         }
     }
     static void sweep(int, char**, std::string& o) {
